@@ -1222,6 +1222,73 @@ example : obsEntry { (put epA none none []) with code := 5, opts := [(6, [1]), (
   decide
 example : obsEntry (put epA none none []) = .plain := by decide
 
+/-- an empty block with the more flag and size exponent 7 contradicts its block size (first case of
+`C06_size_contradiction_4_00` / `C06_block0_size_contradiction_4_00`); 2048 bytes do not -/
+example : (⟨1, true, 7⟩ : Blk).more = true ∧ (0 : Nat) ≠ (⟨1, true, 7⟩ : Blk).size ∧
+    ¬ ((⟨1, true, 7⟩ : Blk).szx = 7 ∧ 0 % (⟨1, true, 7⟩ : Blk).size = 0 ∧ 0 < (0 : Nat)) := by decide
+example : sizeOk ⟨1, true, 7⟩ 0 = false ∧ sizeOk ⟨0, true, 7⟩ 0 = false ∧ sizeOk ⟨1, true, 7⟩ 2048 = true ∧
+    sizeOk ⟨1, false, 7⟩ 0 = true := by decide
+
+/-- `C06_block_key_components`: the same request sent to two paths of one resource object (the `Site`
+has taken the path out of the options) has two block keys; block 1 sent to the other path finds no
+assembly -/
+private def viaSite (path : List Bytes) (m : Msg) : Msg := { m with opts := [], origPath := some path }
+example : blockKey (viaSite [[105, 110]] (put epA none none [])) ≠
+    blockKey (viaSite [[97], [105, 110]] (put epA none none [])) := by decide
+example : (run 10 RState.init
+      [ rq 0 (viaSite [[105, 110]] (put epA (some ⟨0, true, 0⟩) none (List.replicate 16 65))) (ok []),
+        rq 1 (viaSite [[97], [105, 110]] (put epA (some ⟨1, false, 0⟩) none [1, 2, 3])) (ok []),
+        rq 2 (viaSite [[105, 110]] (put epA (some ⟨1, false, 0⟩) none [1, 2, 3])) (ok []) ]).map
+      (fun o => (o.resp.code, o.seen.map (·.payload.length))) =
+    [(95, none), (136, none), (69, some 19)] := by decide
+
+/-- overlapping handlers: a request for the beginning arrives at 0 (its handler takes until 5 and
+renders 40 × 1), a second one under the same block key at 1 (done at 2, 40 × 2); block 1 asked for
+at 1 (both pending) and at 3 (the older one still pending) and at 10.  Answers: the two pending ones
+none yet, 4.08 while the latest has no rendering, block 0 of 2…, block 1 of 2…, block 0 of 1… for the
+superseded request, and block 1 of 2… — the rendering of the request that arrived last, not of the
+one that finished last. -/
+private def getA (b2 : Blk) : Msg :=
+  { remote := epA, code := 1, opts := [(11, [97])], block1 := none, block2 := some b2, payload := [] }
+private def rendering (x : Nat) : Outcome :=
+  .ok { code := 69, opts := [], block1 := none, block2 := none, payload := List.replicate 40 x }
+private def overlapHistory : List Ev :=
+  [ .arrive { now := 0, assemble := true, req := getA ⟨0, false, 0⟩ },
+    .arrive { now := 1, assemble := true, req := getA ⟨0, false, 0⟩ },
+    .arrive { now := 1, assemble := true, req := getA ⟨1, false, 0⟩ },
+    .finish 2 1 (rendering 2),
+    .arrive { now := 3, assemble := true, req := getA ⟨1, false, 0⟩ },
+    .finish 5 0 (rendering 1),
+    .arrive { now := 10, assemble := true, req := getA ⟨1, false, 0⟩ } ]
+
+example : (crun 100 CState.init overlapHistory).map
+      (fun o => (o.resp.map (fun r => (r.code, r.block2, r.payload.head?)), o.ticket)) =
+    [ (none, some 0), (none, some 1), (some (136, none, none), none),
+      (some (69, some ⟨0, true, 0⟩, some 2), some 1),
+      (some (69, some ⟨1, true, 0⟩, some 2), none),
+      (some (69, some ⟨0, true, 0⟩, some 1), some 0),
+      (some (69, some ⟨1, true, 0⟩, some 2), none) ] := by decide
+/-- the hypotheses of `C06_overlap_later_block_from_latest_request` at the last event, and the log -/
+example : (feedAndTake 100 10 ((cstateAfter 100 CState.init (overlapHistory.take 6)).r.spool.advance 100 10)
+      (getA ⟨1, false, 0⟩)).2 = .pass (getA ⟨1, false, 0⟩) := by decide
+example : (ghostAfter 100 CState.init Ghost.init (overlapHistory.take 6)).started =
+      [(blockKey (getA ⟨0, false, 0⟩), 0), (blockKey (getA ⟨0, false, 0⟩), 1)] ∧
+    (ghostAfter 100 CState.init Ghost.init (overlapHistory.take 6)).ended = [(1, rendering 2), (0, rendering 1)] ∧
+    lastOf (blockKey (getA ⟨1, false, 0⟩)) (ghostAfter 100 CState.init Ghost.init (overlapHistory.take 6)).started
+      = some 1 := by decide
+/-- `C06_overlap_completion`: at the sixth event token 0 is pending and no longer the one in `_building` -/
+example : ((cstateAfter 100 CState.init (overlapHistory.take 5)).pending.find? (fun q => q.id == 0)).map (·.viaCache)
+      = some true ∧
+    alookup (blockKey (getA ⟨0, false, 0⟩)) (cstateAfter 100 CState.init (overlapHistory.take 5)).building = none :=
+  by decide
+/-- `C06_atomic_is_step`: its hypotheses hold in the initial state, and in a state where another block
+key has a pending request -/
+example : (∀ q ∈ CState.init.pending, q.id ≠ CState.init.next) ∧
+    alookup (blockKey (put epA none none [])) CState.init.building = none := by
+  constructor
+  · intro q hq; simp [CState.init] at hq
+  · rfl
+
 /-- TimeoutDict: set at 0 with T = 10, other key accessed at 5; present at 9, absent at 20 -/
 example : ((TD.runOps 10 (TD.empty : TD Nat Nat) [(0, .set 1 7), (5, .set 2 8)]).advance 10 9).present 1
     = true := by decide
